@@ -328,7 +328,11 @@ func (mn *mnode) observe(opStart time.Time) string {
 		if from == "" {
 			from = "-"
 		}
-		bl = append(bl, fmt.Sprintf("b/%s/%s/%s/%d/%s/%d", q, kind, b.Node, b.Incarnation, from, nt))
+		line := fmt.Sprintf("b/%s/%s/%s/%d/%s/%d", q, kind, b.Node, b.Incarnation, from, nt)
+		if kind == "a" { // content of the alive claim handed to the network
+			line += fmt.Sprintf("/%d/%d/%d/%s", mn.pool.addrCode(b.Addr), mn.pool.portCode(b.Port), mdCode(b.Meta), vsnStr(b.Vsn))
+		}
+		bl = append(bl, line)
 	}
 	sort.Strings(bl)
 	outs = append(outs, bl...)
